@@ -6,16 +6,16 @@ from ..facts import AnalysisBroken
 from ..flow import lvalue_key, is_assign, _strip_casts
 from . import C11
 
-EXPLANATION = ('R-CLONE: the point map q = p*mag; if (refl) q.y = -q.y; rotate; + origin is the same code in Polygon::transform, '
-               'FlexPath::transform (spine) and Reference::repeat_and_transform; Polygon::{translate,scale,mirror,rotate} equal the '
-               'spine parts of FlexPath::{...}; Reference::transform == Label::transform. R-DEP/R-SHAPE: placement composition '
-               '(r1 depends only on the incoming reflection; rotation = r1*rotation + rot; magnification *= mag; '
-               'x_reflection ^= x_refl; the old origin is captured before it is overwritten). R-SIGN (abstract interpretation over '
-               'the sign domain, all sign/boolean valuations of the parameters): the offset factor applied by FlexPath::'
-               'scale/transform/mirror and RobustPath::simple_scale/mirror/x_reflection has sign + for orientation-preserving '
-               'maps (including negative magnification) and - for reflections; the width factor is never negative, is exactly 1 '
-               'unless scale_width, and the offset factor does not depend on scale_width. RobustPath::transform/scale/rotate call '
-               'structure. Repetition::transform obligations are shared with C11. Numerical agreement with the 2x3 matrix is not decided.')
+EXPLANATION = ('R-ALGEBRA (generic-element execution, sa/genelem.py + sa/symdiff.py): every transforming method of Polygon and FlexPath is '
+               'executed once on a symbolic generic element of each member array, for every valuation of x_reflection / scale_width; '
+               'the polynomial stored into the vertices / spine points, the (half width, offset) pairs, the end extensions and the bend '
+               'radius must be identically the documented map (t + m R(a) diag(1, +-1) p; p + v; c + s(p - c); c + R(angle)(p - c); the '
+               'reflection across p0p1; (w * (scale_width ? |m| : 1), d * +-|m|); lengths * |m|) and nothing else is written. The loop form '
+               'is irrelevant. Reference::repeat_and_transform and the placement composition of Reference::transform / Label::transform '
+               '(T o P for all four reflection combinations) are polynomial identities with trigonometric expansion. R-SIGN (sign-domain '
+               'abstract interpretation over all sign/boolean valuations): RobustPath::simple_scale/mirror/x_reflection keep / flip the '
+               'sign of offset_scale and keep width_scale positive. RobustPath::transform call structure. Repetition::transform '
+               'obligations are shared with C11. Numerical agreement with the 2x3 matrix is not decided.')
 ASSUMPTIONS = ['Vec2 operators are component-wise (vec.hpp)', 'fabs/cos/sin are the libm functions']
 XREF_FILES = ['src/polygon.cpp', 'src/flexpath.cpp', 'src/robustpath.cpp', 'src/reference.cpp', 'src/label.cpp']
 
@@ -170,61 +170,7 @@ def factor_at(fn, use_stmt_pred, env, params_env):
 
 def check_signs(ctx, db):
     n = 0
-    # --- FlexPath::scale / transform: factor Vec2 applied with `*wo++ *= wo_scale`
-    for name, has_refl in (('scale', False), ('transform', True)):
-        f = db.fn('gdstk::FlexPath::' + name)
-        ctx.touch(f)
-        use = None
-        for x in f.walk():
-            if is_assign(x) and x.op == '*=' and 'half_width_and_offset' not in x.text() and x.child('lhs').text().startswith('(*'):
-                r = _strip_casts(x.child('rhs'))
-                if r.k == 'DeclRefExpr' and (r.t or '').endswith('Vec2'):
-                    use = (x, r)
-        if use is None:
-            raise AnalysisBroken('FlexPath::%s: width/offset factor application not found' % name)
-        fac_key = 'v%d:%s' % (use[1].d, use[1].n)
-        pmag = f.params[0]
-        for ms in ('+', '-'):
-            for refl in ((False, True) if has_refl else (False,)):
-                for sw in (False, True):
-                    env = {'v%d:%s' % (pmag['d'], pmag['n']): ms, 'this->scale_width': sw}
-                    if has_refl:
-                        env['v%d:%s' % (f.params[1]['d'], f.params[1]['n'])] = refl
-                    it = signs.Interp(env)
-                    it.run(f.body.c, stop_at=use[0])
-                    ctx.explored['valuations'] += 1
-                    fac = it.env.get(fac_key)
-                    n += 1
-                    key = 'FlexPath::%s/factor|mag%s,refl=%d,scale_width=%d' % (name, ms, refl, sw)
-                    want_v = '-' if refl else '+'
-                    ok = isinstance(fac, tuple) and fac[1] == want_v and fac[0] == '+'
-                    ctx.check(ok, 'R-SIGN', key, use[0].loc(), 'width factor > 0 and offset factor sign %s (handedness %s)' % (want_v, 'reversed' if refl else 'preserved'),
-                              'with magnification %s0, x_reflection=%s, scale_width=%s the (width, offset) factor has signs %s; required (+, %s): offsets land on the wrong side of the spine / widths go negative' % (
-                                  '>' if ms == '+' else '<', refl, sw, fac, want_v))
-        # width policy: width factor is the literal 1 unless scale_width; offset factor independent of scale_width
-        init = next((v for v in f.walk() if v.k == 'VarDecl' and 'v%d:%s' % (v.d, v.n) == fac_key), None)
-        kids = None
-        if init is not None and init.child('init') is not None:
-            e = init.child('init')
-            while e is not None and len([c for c in e.c if c is not None]) == 1:
-                e = [c for c in e.c if c is not None][0]
-            kids = [c for c in e.c if c is not None]
-        ok = kids is not None and len(kids) == 2 and _strip_casts(kids[0]).cv == 1
-        st = [x for x in f.walk() if is_assign(x) and lvalue_key(x.child('lhs')) == fac_key + '.u' or is_assign(x) and lvalue_key(x.child('lhs')) == fac_key + '.x']
-        ok = ok and len(st) == 1 and any(a.k == 'IfStmt' and a.child('cond').text() == 'this->scale_width' for a in st[0].ancestors())
-        stv = [x for x in f.walk() if is_assign(x) and lvalue_key(x.child('lhs')) in (fac_key + '.v', fac_key + '.y')]
-        ok = ok and not any(a.k == 'IfStmt' and 'scale_width' in a.child('cond').text() for x in stv for a in x.ancestors())
-        n += 1
-        ctx.check(ok, 'R-DEP', 'FlexPath::%s/width-policy' % name, f.loc(), 'width factor is 1 unless scale_width (control dependent); offset factor never depends on scale_width')
-        # end extensions scale unconditionally
-        ee = [x for x in f.walk() if is_assign(x) and x.child('lhs').text().endswith('->end_extensions')]
-        ctx.check(len(ee) == 1 and not any(a.k == 'IfStmt' for a in ee[0].ancestors()), 'R-DEP', 'FlexPath::%s/end-extensions' % name, f.loc(), 'end extensions scale unconditionally')
-    # --- FlexPath::mirror: offsets negated
-    f = db.fn('gdstk::FlexPath::mirror')
-    neg = [x for x in f.walk() if is_assign(x) and x.op == '=' and x.child('lhs').text().endswith('->v') and _strip_casts(x.child('rhs')).k == 'UnaryOperator'
-           and _strip_casts(x.child('rhs')).op == '-' and _strip_casts(x.child('rhs')).child('sub').text() == x.child('lhs').text()]
-    n += 1
-    ctx.check(len(neg) == 1, 'R-SIGN', 'FlexPath::mirror/offset-negated', f.loc(), 'a mirror (orientation reversing) negates every offset')
+    # --- FlexPath scale / transform / mirror factors: decided algebraically in check_element_maps
     # --- RobustPath
     f = db.fn('gdstk::RobustPath::simple_scale')
     ctx.touch(f)
@@ -272,7 +218,7 @@ def check_signs(ctx, db):
     n += 1
     ctx.check(seq == ['simple_scale($magnification)', 'if($x_refl)x_reflection', 'simple_rotate($rotation)', 'translate($origin)'], 'R-SHAPE', 'RobustPath::transform/sequence', f.loc(),
               'magnify, then reflect across x iff requested, then rotate, then translate', 'RobustPath::transform is not magnify; reflect-if; rotate; translate: %s' % seq)
-    ctx.require('R-SIGN/R-DEP obligations', n, 29)
+    ctx.require('R-SIGN/R-DEP obligations', n, 14)
 
 
 def check_length_fields(ctx, db):
@@ -291,6 +237,23 @@ def check_length_fields(ctx, db):
         for qn in fns:
             f = db.fn(qn)
             ctx.touch(f)
+            if rect == 'gdstk::FlexPathElement':
+                # which element fields the method rewrites: generic-element execution (any loop form); their values are
+                # decided in check_element_maps (lengths along the path scale by |factor|)
+                from .. import symdiff as S
+                from .. import genelem as G
+                g = G.Gen(db, f)
+                try:
+                    g.run([s_ for s_ in f.body.c if s_ is not None], {'x_reflection': S.P(0), 'scale_width': S.P(1)})
+                except S.Unsupported as e:
+                    raise AnalysisBroken('%s is outside the generic-element algebra: %s' % (qn, e))
+                for fld in lengths:
+                    n += 1
+                    hit = [k_ for k_ in g.written if k_ in ('this->elements[].' + fld, 'this->elements[].' + fld + '[]')]
+                    same = bool(hit) and g.equal(g.loc[hit[0]], g.initial(hit[0], g.isvec(g.loc[hit[0]])))
+                    ctx.check(bool(hit) and not same, 'R-AGG', '%s/scales:%s' % (qn.replace('gdstk::', ''), fld), f.loc(), 'length field `%s` of %s is rescaled' % (fld, rect.split('::')[-1]),
+                              'length field `%s` of %s is not rescaled by %s: the transformed path is not the image of the original (e.g. bends keep their old radius)' % (fld, rect.split('::')[-1], qn.replace('gdstk::', '')))
+                continue
             pmag = f.params[0]['n']
             upd = {}
             for x in f.walk():
@@ -326,11 +289,93 @@ def check_length_fields(ctx, db):
                     n += 1
                     ctx.check(nonneg, 'R-SIGN', '%s/abs-factor:%s' % (qn.replace('gdstk::', ''), fld), rhs.loc(), '`%s` is scaled by the absolute value of the factor' % fld,
                               '`%s` is multiplied by the signed factor `%s`: under a negative scale (a point reflection) the length becomes negative' % (fld, rhs.text()[:40]))
-    ctx.require('R-AGG/R-SIGN element length fields', n, 10)
+    ctx.require('R-AGG/R-SIGN element length fields', n, 7)
 
 
 def norm(t):
     return re.sub(r'<[A-Za-z]+:(?!:)[^>]*>', '', t).replace('gdstk::', '')
+
+
+def check_element_maps(ctx, db):
+    """R-ALGEBRA (sa/genelem.py): each transforming method of Polygon and FlexPath is executed once on a generic element of
+    every member array, for every valuation of its boolean inputs (x_reflection, scale_width); the value stored into each
+    location must be identically the documented map, and no other location may be written:
+      vertices / spine points   transform: o + m R(a) diag(1, +-1) p;  translate: p + v;  scale: c + s (p - c);
+                                rotate: c + R(angle)(p - c);  mirror: reflection across the line p0 p1
+      (half width, offset)      transform / scale: (w * (scale_width ? |m| : 1),  d * +-|m|)  (- iff reflected);  mirror: (w, -d)
+      end extensions, bend radius   transform / scale: * |m|  (lengths along the path scale by the absolute factor)
+    The loop form (pointer walking, counting down, indexing) does not matter to the result."""
+    from .. import symdiff as S
+    from .. import genelem as G
+    n = 0
+
+    def spec_point(alg, name, p, cls, refl):
+        c = alg.vec(S.atom('center.x'), S.atom('center.y'))
+        sub = lambda a, b: alg.vadd(a, b, -1)
+        if name == 'transform':
+            g = -1 if refl else 1
+            C_, Sn, M = alg.fatom('cos', S.atom('rotation')), alg.fatom('sin', S.atom('rotation')), S.atom('magnification')
+            x, y = p[1], S.mul(p[2], S.P(g))
+            return alg.vec(S.add(S.atom('origin.x'), S.mul(M, S.add(S.mul(C_, x), S.mul(Sn, y), -1))), S.add(S.atom('origin.y'), S.mul(M, S.add(S.mul(Sn, x), S.mul(C_, y)))))
+        if name == 'translate':
+            return alg.vadd(p, alg.vec(S.atom('v.x'), S.atom('v.y')))
+        if name == 'scale':
+            d = sub(p, c)
+            if cls == 'FlexPath':
+                return alg.vadd(alg.vmul(d, S.atom(SCALE_PARAM['FlexPath'])), c)
+            return alg.vadd(alg.vec(S.mul(d[1], S.atom('scale_factor.x')), S.mul(d[2], S.atom('scale_factor.y'))), c)
+        if name == 'rotate':
+            d = sub(p, c)
+            C_, Sn = alg.fatom('cos', S.atom('angle')), alg.fatom('sin', S.atom('angle'))
+            return alg.vadd(alg.vec(S.add(S.mul(C_, d[1]), S.mul(Sn, d[2]), -1), S.add(S.mul(Sn, d[1]), S.mul(C_, d[2]))), c)
+        if name == 'mirror':
+            p0, p1 = alg.vec(S.atom('p0.x'), S.atom('p0.y')), alg.vec(S.atom('p1.x'), S.atom('p1.y'))
+            v = sub(p1, p0)
+            vv = S.add(S.mul(v[1], v[1]), S.mul(v[2], v[2]))
+            d = sub(p, p0)
+            k = S.mul(S.mul(S.P(2), S.add(S.mul(v[1], d[1]), S.mul(v[2], d[2]))), alg.fatom('inv', vv))
+            return alg.vadd(alg.vadd(alg.vmul(v, k), d, -1), p0)
+    SCALE_PARAM = {'FlexPath': db.fn('gdstk::FlexPath::scale').params[0]['n']}
+    PT = {'Polygon': 'this->point_array[]', 'FlexPath': 'this->spine.point_array[]'}
+    WO, EE, BR = 'this->elements[].half_width_and_offset[]', 'this->elements[].end_extensions', 'this->elements[].bend_radius'
+    for cls in ('Polygon', 'FlexPath'):
+        for name in ('transform', 'translate', 'scale', 'rotate', 'mirror'):
+            f = db.fn('gdstk::%s::%s' % (cls, name))
+            ctx.touch(f)
+            has_refl = any(p_['n'] == 'x_reflection' for p_ in f.params)
+            has_sw = cls == 'FlexPath' and name in ('transform', 'scale')
+            for refl in ((False, True) if has_refl else (False,)):
+                for sw in ((False, True) if has_sw else (False,)):
+                    g = G.Gen(db, f)
+                    env = {'x_reflection': S.P(int(refl)), 'scale_width': S.P(int(sw))}
+                    try:
+                        g.run([s_ for s_ in f.body.c if s_ is not None], env)
+                    except S.Unsupported as e:
+                        raise AnalysisBroken('%s::%s is outside the generic-element algebra: %s' % (cls, name, e))
+                    ctx.explored['valuations'] += 1
+                    want = {}
+                    key = PT[cls]
+                    want[key] = spec_point(g, name, g.initial(key, True), cls, refl)
+                    if cls == 'FlexPath' and name in ('transform', 'scale'):
+                        F = g.fatom('fabs', S.atom('magnification' if name == 'transform' else SCALE_PARAM['FlexPath']))
+                        wo, ee, br = g.initial(WO, True), g.initial(EE, True), g.initial(BR, False)
+                        want[WO] = g.vec(S.mul(wo[1], F) if sw else wo[1], S.mul(S.mul(wo[2], F), S.P(-1 if refl else 1)))
+                        want[EE] = g.vmul(ee, F)
+                        want[BR] = S.mul(br, F)
+                    if cls == 'FlexPath' and name == 'mirror':
+                        wo = g.initial(WO, True)
+                        want[WO] = g.vec(wo[1], S.mul(wo[2], S.P(-1)))
+                    tag = '%s::%s%s' % (cls, name, ('|reflection=%d' % refl if has_refl else '') + (',scale_width=%d' % sw if has_sw else ''))
+                    for k_, w_ in want.items():
+                        got = g.loc.get(k_) if k_ in g.written else None
+                        n += 1
+                        what = {'[]': 'every point', WO: 'every (half width, offset) pair', EE: 'the end extensions', BR: 'the bend radius'}.get(k_ if k_ in (WO, EE, BR) else '[]')
+                        ctx.check(got is not None and g.equal(got, w_), 'R-ALGEBRA', '%s/%s' % (tag, k_.replace('this->', '')), f.loc(), '%s is mapped by the documented map' % what,
+                                  '%s: stored value is %s; the documented map gives %s' % (k_, g.render(got)[:300] if got is not None else 'never written', g.render(w_)[:300]))
+                    extra = [k_ for k_ in g.written if k_ not in want]
+                    ctx.check(not extra, 'R-ALGEBRA', '%s/nothing-else-written' % tag, f.loc(), 'no other member is modified', 'also writes %s' % extra)
+                    # what the method delegates instead of computing (e.g. the repetition): named, not interpreted
+    ctx.require('R-ALGEBRA element maps', n, 30)
 
 
 def check_affine_algebra(ctx, db):
@@ -346,31 +391,7 @@ def check_affine_algebra(ctx, db):
         x, y = q[1], S.mul(q[2], S.P(g))
         return alg.vec(S.add(t[1], S.mul(M, S.add(S.mul(C, x), S.mul(Sn, y), -1))), S.add(t[2], S.mul(M, S.add(S.mul(Sn, x), S.mul(C, y)))))
     n = 0
-    # ---- 1. point maps
-    for qn, pvar in (('gdstk::Polygon::transform', 'p'), ('gdstk::FlexPath::transform', 'p')):
-        f = db.fn(qn)
-        ctx.touch(f)
-        loop = next((l for l in f.walk() if l.k == 'ForStmt'), None)
-        pre = [s_ for s_ in f.body.c if s_ is not None and s_.id < loop.id and s_.k == 'DeclStmt' and not any('*' in (v.t or '') for v in s_.c if v is not None)]
-        for g in (1, -1):
-            alg = S.Algebra(db, None)
-
-            class A2(type(alg)):
-                pass
-            env = {'x_reflection': S.P(1 if g == -1 else 0)}
-            px, py = S.atom('px'), S.atom('py')
-            try:
-                alg.block(pre, env, None)
-                env['*' + pvar] = alg.vec(px, py)
-                body = [s_ for s_ in loop.child('body').c if s_ is not None]
-                out = run_point_block(alg, body, env, pvar)
-            except S.Unsupported as e:
-                raise AnalysisBroken('%s point map is outside the algebra: %s' % (qn, e))
-            C_, Sn = alg.fatom('cos', S.atom('rotation')), alg.fatom('sin', S.atom('rotation'))
-            want = T(alg, alg.vec(px, py), S.atom('magnification'), g, C_, Sn, alg.vec(S.atom('origin.x'), S.atom('origin.y')))
-            n += 1
-            ctx.check(out is not None and alg.equal(out, want), 'R-ALGEBRA', '%s/point-map|reflection=%s' % (qn.replace('gdstk::', ''), g == -1), loop.loc(), 'every point is mapped by origin + m R(rotation) diag(1, %+d) p' % g,
-                      'the point map is %s, the documented map gives %s' % (alg.render(out) if out is not None else 'unset', alg.render(want)))
+    # ---- 1. point maps of Polygon / FlexPath: check_element_maps (generic-element execution); here the reference expansion
     f = db.fn('gdstk::Reference::repeat_and_transform')
     ctx.touch(f)
     inner = next((l for l in f.walk() if l.k == 'ForStmt' and any(v.k == 'VarDecl' and v.n == 'q' for v in l.walk()) and not any(x.k == 'ForStmt' and x is not l for x in l.child('body').walk())), None)
@@ -393,52 +414,6 @@ def check_affine_algebra(ctx, db):
         n += 1
         ctx.check(out is not None and alg.equal(out, want), 'R-ALGEBRA', 'Reference::repeat_and_transform/point-map|reflection=%s' % (g == -1), inner.loc(), 'every point of the referenced geometry is mapped by origin + offset + m R(rotation) diag(1, %+d) p' % g,
                   'the point map is %s, the documented map gives %s' % (alg.render(out) if out is not None else 'unset', alg.render(want)))
-    # ---- 1b. the elementary maps of Polygon and of the FlexPath spine
-    def vsub(alg, a, b):
-        return alg.vadd(a, b, -1)
-
-    def elementary(alg, name, p, scalar):
-        c = alg.vec(S.atom('center.x'), S.atom('center.y'))
-        if name == 'translate':
-            return alg.vadd(p, alg.vec(S.atom('v.x'), S.atom('v.y')))
-        if name == 'scale':
-            d = vsub(alg, p, c)
-            if scalar:
-                return alg.vadd(alg.vmul(d, S.atom('scael_factor')), c)
-            return alg.vadd(alg.vec(S.mul(d[1], S.atom('scale_factor.x')), S.mul(d[2], S.atom('scale_factor.y'))), c)
-        if name == 'rotate':
-            d = vsub(alg, p, c)
-            C_, Sn = alg.fatom('cos', S.atom('angle')), alg.fatom('sin', S.atom('angle'))
-            return alg.vadd(alg.vec(S.add(S.mul(C_, d[1]), S.mul(Sn, d[2]), -1), S.add(S.mul(Sn, d[1]), S.mul(C_, d[2]))), c)
-        if name == 'mirror':
-            p0, p1 = alg.vec(S.atom('p0.x'), S.atom('p0.y')), alg.vec(S.atom('p1.x'), S.atom('p1.y'))
-            v = vsub(alg, p1, p0)
-            vv = S.add(S.mul(v[1], v[1]), S.mul(v[2], v[2]))
-            d = vsub(alg, p, p0)
-            k = S.mul(S.mul(S.P(2), S.add(S.mul(v[1], d[1]), S.mul(v[2], d[2]))), alg.fatom('inv', vv))
-            return alg.vadd(alg.vadd(alg.vmul(v, k), d, -1), p0)      # p0 + 2 proj_v(p - p0) - (p - p0)
-    for cls, scalar in (('Polygon', False), ('FlexPath', True)):
-        for name in ('translate', 'scale', 'mirror', 'rotate'):
-            f = db.fn('gdstk::%s::%s' % (cls, name))
-            ctx.touch(f)
-            loop = next((l for l in f.walk() if l.k == 'ForStmt'), None)
-            if loop is None:
-                raise AnalysisBroken('%s::%s: point loop not found' % (cls, name))
-            alg = S.Algebra(db, None)
-            env = {}
-            px, py = S.atom('px'), S.atom('py')
-            try:
-                pre = [s_ for s_ in f.body.c if s_ is not None and s_.id < loop.id and s_.k == 'DeclStmt' and not any(v is not None and '*' in (v.t or '') for v in s_.c)]
-                alg.block(pre, env, None)
-                env['*p'] = alg.vec(px, py)
-                b_ = loop.child('body')
-                out = run_point_block(alg, [x for x in b_.c if x is not None] if b_.k == 'CompoundStmt' else [b_], env, 'p')
-            except S.Unsupported as e:
-                raise AnalysisBroken('%s::%s is outside the algebra: %s' % (cls, name, e))
-            want = elementary(alg, name, alg.vec(px, py), scalar)
-            n += 1
-            ctx.check(out is not None and alg.equal(out, want), 'R-ALGEBRA', '%s::%s/point-map' % (cls, name), loop.loc(), 'every %s is mapped by the documented %s' % ('vertex' if cls == 'Polygon' else 'spine point', {'translate': 'p + v', 'scale': 'c + s (p - c)', 'rotate': 'c + R(angle) (p - c)', 'mirror': 'reflection across the line p0 p1'}[name]),
-                      'the map is %s, the documented map gives %s' % (alg.render(out)[:240] if out is not None else 'unset', alg.render(want)[:240]))
     # ---- 2. placement composition
     for qn in ('gdstk::Reference::transform', 'gdstk::Label::transform'):
         f = db.fn(qn)
@@ -488,7 +463,7 @@ def check_affine_algebra(ctx, db):
                           'the updated placement maps p to %s, but T(P(p)) = %s' % (alg.render(alg.expand(got))[:260], alg.render(alg.expand(want))[:260]))
         flip = [x for x in f.walk() if x.k == 'CompoundAssignOperator' and x.op == '^=' and norm(x.child('lhs').text()).endswith('x_reflection') and norm(x.child('rhs').text()) == 'x_refl']
         ctx.check(len(flip) == 1, 'R-ALGEBRA', '%s/reflection-xor' % qn.replace('gdstk::', ''), f.loc(), 'x_reflection ^= x_refl')
-    ctx.require('R-ALGEBRA affine identities', n, 22)
+    ctx.require('R-ALGEBRA affine identities', n, 10)
 
 
 def run_point_block(alg, body, env, pvar):
@@ -589,8 +564,7 @@ def val_with_cursor(alg, e, env, pvar):
 
 def run(ctx):
     db = ctx.db
-    check_point_maps(ctx, db)
-    check_spine_twins(ctx, db)
+    check_element_maps(ctx, db)
     check_placement(ctx, db)
     check_signs(ctx, db)
     check_length_fields(ctx, db)
@@ -605,7 +579,7 @@ def run(ctx):
 
 
 MANIFEST = dict(
-    text='Decides structural necessary conditions of the documented affine maps: the point map (magnify, reflect y, rotate, translate) is the same normalised code in Polygon::transform, FlexPath::transform and Reference::repeat_and_transform with the rotation rows x cos - y sin / x sin + y cos; Polygon::{translate,scale,mirror,rotate} equal the spine parts of the FlexPath methods; Reference::transform == Label::transform and has the composition shape (r1 from the incoming reflection only; rotation = r1*rotation + rot; magnification *= mag; x_reflection ^= x_refl; origin from the captured old origin); by abstract interpretation over the sign domain for every sign/boolean valuation: offset factors keep their sign under magnification of either sign and flip exactly under reflection, width factors stay positive and are 1 unless scale_width, in FlexPath::scale/transform/mirror and RobustPath::simple_scale/mirror/x_reflection; RobustPath::transform is scale; reflect-if; rotate; translate; every length-valued field of the path element records (from the record layout: widths/offsets, end extensions, bend radius) is rescaled by scale/transform and the along-path lengths by the absolute factor; as polynomial identities with trigonometric expansion, the elementary maps translate/scale/mirror/rotate of Polygon and of the FlexPath spine are exactly p + v, c + s(p - c), the reflection across p0p1 and c + R(angle)(p - c) (Vec2 operators and methods inlined from their header definitions), the point maps of Polygon::transform, FlexPath::transform and Reference::repeat_and_transform are exactly t + m R(rotation) diag(1, +-1) p (plus the repetition offset), and Reference::transform / Label::transform store fields whose placement is exactly T o P for all four reflection combinations; Repetition::transform depends on every non-neutral parameter for every kind and valuation and is, as a polynomial identity on all 40 (kind, valuation) paths, m R(rotation) diag(1, +-1). Numerical agreement of outlines is not decided.',
+    text='Decides, as polynomial identities, that the element transforms are the documented affine maps: every transforming method of Polygon and FlexPath (transform, translate, scale, rotate, mirror) is executed once on a symbolic generic element of each member array (sa/genelem.py: cursors, indices and count-down loops all denote the same generic element), for every valuation of x_reflection and scale_width; the value stored into vertices / spine points is exactly t + m R(rotation) diag(1, +-1) p, p + v, c + s(p - c), c + R(angle)(p - c) or the reflection across p0p1, the (half width, offset) pairs become (w * (scale_width ? |m| : 1), d * +-|m|) (sign flips exactly under reflection; mirror gives (w, -d)), end extensions and bend radius scale by |m|, every length-valued field of the element record (from the record layout) is rewritten and no other member is written; the per-point map of Reference::repeat_and_transform is t + offset + m R diag(1, +-1) p; Reference::transform / Label::transform store fields whose placement is exactly T o P for all four reflection combinations, are clones of each other and capture the old origin before overwriting it; by abstract interpretation over the sign domain for every sign/boolean valuation RobustPath::simple_scale/mirror/x_reflection keep or flip the sign of offset_scale as required and keep width_scale positive; RobustPath::transform is scale; reflect-if; rotate; translate and its matrix methods compose exactly; Repetition::transform depends on every non-neutral parameter for every kind and valuation and is, as a polynomial identity on all 40 (kind, valuation) paths, m R(rotation) diag(1, +-1). Numerical agreement of outlines is not decided.',
     note='Trusted: clang front end, gx, sa rules (sa/signs.py interprets literals, unary minus, fabs, products, ternaries, Vec2 initialisers and component stores; anything else evaluates to unknown and fails the obligation). Reference strings for the origin map were confirmed by reading.',
-    technique='polynomial identities with symbolic trigonometric expansion (sa/symdiff.py) + clone families over α-normalised ASTs + sign-domain abstract interpretation with exhaustive parameter-sign enumeration + predicate-atom path enumeration',
+    technique='generic-element symbolic execution of the transforming methods into polynomial identities with trigonometric expansion (sa/genelem.py, sa/symdiff.py) + clone family for the two placement transforms + sign-domain abstract interpretation with exhaustive parameter-sign enumeration + predicate-atom path enumeration',
     design='§4 C10')
